@@ -21,6 +21,10 @@ from vlib.classes import build_dag, has_diamond, EV_ADD, EV_REMOVE, EV_RENAMED, 
 EXPLICIT_IDS = [1, 2, 3, 4, 6, 'a', ('t', 1), -1, 0, True, 2.0, '', 9]
 NEVER_USED = ['never-used', 10 ** 9]
 PROCESS_BUDGET = 200000
+REACTIONS = True      # generate callbacks that issue World operations re-entrantly (see Run.react_general)
+# operand digit -> arm code: 6/16 no reaction, 7/16 one of the seven actions at the first lifecycle callback,
+# 3/16 a reaction reserved for on_remove (8: deferred delete of the own entity, 11: immediate delete of another)
+ARM_TABLE = [0, 0, 0, 0, 0, 0, 8, 8, 1, 2, 3, 4, 5, 6, 7, 11]
 
 
 class Sentinel(desper.Processor):
@@ -79,13 +83,16 @@ def decode_op(weights):
 
     def dec(t):
         sel, p = t
-        d = [(p >> (4 * i)) & 15 for i in range(5)]
+        d = [(p >> (4 * i)) & 15 for i in range(6)]
         name = table[sel % len(table)]
+        # last operand of create / add: 0 = plain, 1..7 = arm a one-shot reaction on the new handler component
+        # (fires at its first on_add / on_remove), 8..14 = the same reactions, fired by on_remove only
         if name == 'create':
             n = (1, 1, 2, 0, 1, 2, 3, 1)[d[1] >> 1]
-            return ['create', (d[0] % len(EXPLICIT_IDS)) + 1 if d[1] & 1 else 0, [x % 8 for x in d[2:2 + n]]]
+            return ['create', (d[0] % len(EXPLICIT_IDS)) + 1 if d[1] & 1 else 0, [x % 8 for x in d[2:2 + n]],
+                    ARM_TABLE[d[5]] if REACTIONS else 0]
         if name == 'add':
-            return ['add', d[0], d[1], d[2] % 4]
+            return ['add', d[0], d[1], d[2] % 4, ARM_TABLE[d[3]] if REACTIONS else 0]
         if name == 'remove':
             return ['remove', d[0], d[1]]
         if name in ('delete', 'delete_now', 'bad_delete'):
@@ -98,7 +105,7 @@ def decode_op(weights):
 
 def ops_strategy(weights, max_ops=40):
     dec, total = decode_op(weights)
-    op = st.tuples(st.integers(0, total - 1), st.integers(0, 16 ** 5 - 1)).map(dec)
+    op = st.tuples(st.integers(0, total - 1), st.integers(0, 16 ** 6 - 1)).map(dec)
     return chunked(op, max_ops)
 
 
@@ -162,6 +169,12 @@ class Run:
         self.cb_stack = []
         self.frame_reactions = 0
         self.nested_deferred = []   # ids deferred-deleted by a callback while the current frame applies deletions
+        self.no_react = False       # general reactions are held back during clear / toggle / probe / process
+        self.busy = []              # entities the operations in progress (outer and nested) work on
+        self.nesting = 0
+        self._post = []             # own-entity effects of reactions, applied to the model after the outer op
+        self._owed = []
+        self._disabled_at = None
         self._install_sentinel()
 
     # ---- helpers --------------------------------------------------------------------------------------
@@ -233,8 +246,9 @@ class Run:
 
     # ---- owed callbacks -------------------------------------------------------------------------------
     def owe(self, group):
-        """group: list of (kind, comp, entity) owed by the operation that just ran."""
-        self._owed = group
+        """group: list of (kind, comp, entity) owed by the operation that just ran (nested operations issued by
+        callbacks add theirs to the same step)."""
+        self._owed.extend(group)
 
     # ---- operations -----------------------------------------------------------------------------------
     def step(self, op):
@@ -248,18 +262,28 @@ class Run:
                 self.flags['op_on_pending_id:' + name] += 1
         mark = len(self.log)
         self._toggled_at = None
+        self._disabled_at = None
+        self._post = []
+        self.busy = []
+        was_enabled = self.enabled
         getattr(self, 'op_' + name)(*op[1:])
+        for post in self._post:
+            self.apply_post(post)
+        self._post = []
         if 'lifecycle' in self.checks and name != 'toggle':
             # a degraded op may have enabled dispatching first: that part of the log was judged by op_toggle
             start = self._toggled_at if self._toggled_at is not None else mark
-            self.check_segment(self.log[start:], name)
+            if self._disabled_at is not None and (was_enabled or self._toggled_at is not None):
+                self.check_split(self.log[start:self._disabled_at], self.log[self._disabled_at:], name)
+            else:
+                self.check_segment(self.log[start:], name)
 
     def noop(self, why=None):
         self.noops += 1
         if why:
             self.excluded[why] += 1
 
-    def op_create(self, id_sel, cixs):
+    def op_create(self, id_sel, cixs, arm=0):
         types_seen = []
         comps = []
         for cix in cixs:
@@ -269,6 +293,8 @@ class Run:
                 continue
             types_seen.append(cls)
             comps.append(self.new_comp(cix))
+        if arm:
+            self.arm_general(comps, arm)
         if id_sel == 0:
             eid = None
         else:
@@ -280,6 +306,7 @@ class Run:
                     break
                 self.excluded['explicit_id_in_use'] += 1
         before = {k: dict(v) for k, v in self.attached.items() if v}
+        self.busy.append(eid)
         if eid is None:
             got = self.call_op(self.world.create_entity, *comps)
             self.flags['auto_id'] += 1
@@ -309,20 +336,30 @@ class Run:
                 row[type(c)] = c
         self.owe([('on_add', c, got) for c in comps if self.maps(c, 'on_add')])
 
-    def op_add(self, ent_ix, cix, reuse):
+    def op_add(self, ent_ix, cix, reuse, arm=0):
         e = self.target(ent_ix)
         if e is None:
             return self.noop()
         if self.vanished_pending(e):
             return self.noop('repopulate_vanished_pending_id')
-        if reuse and self.detached:
+        if reuse and self.detached and not arm:
             comp = self.detached.pop((reuse + cix) % len(self.detached))
+            comp.__dict__.pop('_react', None)
             self.flags['reattach_instance'] += 1
         else:
             comp = self.new_comp(cix)
+        if arm:
+            self.arm_general([comp], arm)
+        self._do_add(e, comp)
+
+    def _do_add(self, e, comp):
         row = self.attached.get(e, {})
         old = row.get(type(comp))
-        self.call_op(self.world.add_component, e, comp)
+        self.busy.append(e)
+        try:
+            self.call_op(self.world.add_component, e, comp)
+        finally:
+            self.busy.pop()
         group = []
         if old is not None:
             self.flags['replace'] += 1
@@ -340,11 +377,17 @@ class Run:
         e = self.target(ent_ix)
         if e is None:
             return self.noop()
-        T = self.query_type(e, cix)
+        self._do_remove(e, self.query_type(e, cix))
+
+    def _do_remove(self, e, T):
         row = self.attached.get(e, {})
         allowed = [c for c in row.values() if isinstance(c, T)]
         exact = row.get(T)
-        got = self.call_op(self.world.remove_component, e, T)
+        self.busy.append(e)
+        try:
+            got = self.call_op(self.world.remove_component, e, T)
+        finally:
+            self.busy.pop()
         if exact is not None:
             allowed = [exact]
         if not allowed:
@@ -404,7 +447,7 @@ class Run:
         else:
             self.pending.append(e)
         self.flags['delete'] += 1
-        if 'deletion' in self.checks:
+        if 'deletion' in self.checks and not self.nesting:
             self.check_just_deleted(e)
 
     def op_delete_now(self, ent_ix):
@@ -422,7 +465,14 @@ class Run:
             if 'queries' in self.checks or 'deletion' in self.checks:
                 self.viol('immediate_delete_of_absent_entity_did_not_raise_KeyError', entity=repr(e))
             return
-        self.call_op(self.world.delete_entity, e, immediate=True)
+        self._do_delete_now(e)
+
+    def _do_delete_now(self, e):
+        self.busy.append(e)
+        try:
+            self.call_op(self.world.delete_entity, e, immediate=True)
+        finally:
+            self.busy.pop()
         row = self.attached.pop(e)
         self.flags['delete_now'] += 1
         if any(hasattr(type(c), '__events__') for c in row.values()):
@@ -497,6 +547,116 @@ class Run:
                 self.detached.append(got)
             self.flags['reaction:remove'] += 1
 
+    # ---- re-entrant operations issued by lifecycle callbacks -------------------------------------------------
+    ACTIONS = ['delete_own', 'remove_self', 'delete_other', 'delete_now_other', 'remove_other', 'add_other',
+               'disable']
+
+    def arm_general(self, comps, arm):
+        """arm the first handler component of ``comps`` with a one-shot reaction: the first on_add / on_remove it
+        receives (outside process / clear / toggle, while dispatching is enabled) issues a World operation."""
+        for c in comps:
+            only_remove = arm > len(self.ACTIONS)
+            if (self.maps(c, 'on_add') and not only_remove) or self.maps(c, 'on_remove'):
+                action, sel = (arm - 1) % len(self.ACTIONS), arm
+                c.__dict__['_react'] = lambda comp, kind, args: (
+                    None if (only_remove and kind != 'on_remove')
+                    else self.react_general(comp, kind, args, action, sel))
+                self.flags['armed_general'] += 1
+                return
+
+    def react_general(self, comp, kind, args, action, sel):
+        if kind not in ('on_add', 'on_remove') or self.no_react or self.in_process or not self.enabled:
+            return                      # stays armed
+        del comp.__dict__['_react']
+        e = args[0] if args else None
+        w = self.world
+        name = self.ACTIONS[action]
+        if name == 'remove_self' and kind != 'on_add':
+            name = 'delete_own'
+        self.flags['reaction_general'] += 1
+        self.flags['reaction_g:%s:%s' % (name, kind)] += 1
+        if name == 'delete_own':
+            # legal only while the entity still has a row (otherwise it is a delete of an unknown entity)
+            if w.get_components(e):
+                w.delete_entity(e)
+                self._post.append(('mark', e))
+            return
+        if name == 'remove_self':
+            got = w.remove_component(e, type(comp))
+            self._post.append(('unattach', e, comp, got))
+            return
+        if name == 'disable':
+            w.dispatch_enabled = False
+            self.enabled = False
+            self._disabled_at = len(self.log)
+            return
+        busy = self.busy + [e]
+        cands = [k for k in self.known_ids if self.owns(k) and not any(k == b for b in busy)
+                 and not self.vanished_pending(k) and w.get_components(k)]
+        if not cands:
+            self.excluded['reaction_without_target'] += 1
+            return
+        y = cands[sel % len(cands)]
+        self.nesting += 1
+        try:
+            if name == 'delete_other':
+                self._delete(y)
+            elif name == 'delete_now_other':
+                self._do_delete_now(y)
+            elif name == 'remove_other':
+                types = list(self.attached[y])
+                self._do_remove(y, types[sel % len(types)])
+            else:
+                self._do_add(y, self.new_comp(sel))
+        finally:
+            self.nesting -= 1
+
+    def apply_post(self, post):
+        if post[0] == 'mark':
+            e = post[1]
+            if self.owns(e) and not self.is_pending(e):
+                self.pending.append(e)
+                self.flags['own_entity_marked_from_callback'] += 1
+            elif not self.owns(e):
+                # the operation removed the entity altogether: the mark must have gone with it (the next
+                # process() / a re-use of the id show whether it did)
+                self.flags['own_entity_marked_then_gone'] += 1
+            return
+        _k, e, comp, got = post
+        row = self.attached.get(e, {})
+        if row.get(type(comp)) is not comp:
+            return
+        if got is not comp and 'queries' in self.checks:
+            self.viol('remove_component_wrong_result', returned=repr(got), allowed=[repr(comp)], nested=True)
+        del row[type(comp)]
+        if not row:
+            self.attached.pop(e, None)
+        self.detached.append(comp)
+        self.flags['component_removed_itself_in_on_add'] += 1
+        if self.maps(comp, 'on_remove'):
+            self._owed.append(('on_remove', comp, e))
+
+    def check_split(self, before, after, opname):
+        """a callback disabled dispatching in the middle of the operation: what was delivered until then is part of
+        what the operation owes, nothing may run afterwards, the rest is postponed."""
+        before = [r for r in before if r[0] in ('on_add', 'on_remove')]
+        after = [r for r in after if r[0] in ('on_add', 'on_remove')]
+        if after:
+            self.viol('lifecycle_callback_while_dispatching_disabled', got=self.fmt(after), disabled_by='callback')
+        left = list(self._owed)
+        for (k, r, a) in before:
+            hit = [g for g in left if g[0] == k and g[1] is r]
+            if not hit:
+                self.viol('lifecycle_callbacks_differ_from_owed', where=opname, got=self.fmt(before),
+                          owed=[(k2, repr(c), repr(e)) for (k2, c, e) in self._owed])
+            left.remove(hit[0])
+            if len(a) != 2 or not (a[0] == hit[0][2]) or a[1] is not self.world:
+                self.viol('lifecycle_callback_arguments_wrong', where=opname, kind=k, receiver=repr(r), args=repr(a))
+        if left:
+            self.queue.append(left)
+            self.flags['postponed'] += 1
+        self.flags['disabled_from_inside_a_callback'] += 1
+
     def op_process(self):
         self.frame_obs = None
         self.nested_deferred = []
@@ -569,7 +729,11 @@ class Run:
             # not arbitrated - dispatching is re-enabled (and the release checked) before clearing
             self.excluded['clear_while_disabled_enabled_first'] += 1
             self.op_toggle()
-        self.call_op(self.world.clear)
+        self.no_react = True
+        try:
+            self.call_op(self.world.clear)
+        finally:
+            self.no_react = False
         group = []
         for e, row in self.attached.items():
             group.extend(('on_remove', c, e) for c in row.values() if self.maps(c, 'on_remove'))
@@ -599,7 +763,11 @@ class Run:
                 self.viol('callback_while_disabling', segment=self.fmt(self.log[mark:]))
             return
         try:
-            with_budget(PROCESS_BUDGET, setattr, self.world, 'dispatch_enabled', True)
+            self.no_react = True
+            try:
+                with_budget(PROCESS_BUDGET, setattr, self.world, 'dispatch_enabled', True)
+            finally:
+                self.no_react = False
         except StepBudgetExceeded:
             raise Abort('enable budget (C04)')
         except Exception as exc:
